@@ -38,6 +38,12 @@ for _init, _read, _write in (("a = [1]", "a[0]", "a[0] = 9"), ("a = make([]int64
     EXPECT.append({"src": "%s\ns = 0\nfunc touch() { %s; return 5 }\nswitch %s {\ncase touch(), 9: s = 1\ndefault: s = 3\n}\ns" % (_init, _write, _read), "field": "result",
                    "want": "i:3", "why": "a later value of the same case list is compared with the subject as it was, too"})
 
+# for-in over a map visits every entry once - also an entry whose key is NaN, which no lookup can find again
+for _src, _want, _why in (
+        ("m = {}; m[0.0/0.0] = 1; m[1] = 2; n = 0; s = 0\nfor k, v in m { n++; s += v }\n[n, s]", "[i:2,i:3]", "a NaN key is an entry like any other"),
+        ("m = {}; m[0.0/0.0] = 1; m[0.0/0.0] = 2; m[\"a\"] = 4; n = 0; s = 0\nfor k, v in m { n++; s += v }\n[n, s, len(m)]", "[i:3,i:7,i:3]", "two NaN keys are two entries"),
+        ("m = {}; m[0.0/0.0] = 1; n = 0\nfor k in m { n++ }\nn", "i:1", "the one-variable form visits a NaN key, too")):
+    EXPECT.append({"src": _src, "field": "result", "want": _want, "why": "for-in over a map visits every entry once: " + _why})
 # for-in visits the elements themselves: a pointer or a module in the list is what the loop variable holds
 for _src, _want, _why in (
         ("p = new(int64); *p = 5\nr = []\nfor v in [p] { r += (v == p); *v = 6 }\nr += *p\nr", "[b:true,i:6]", "a pointer element is handed to the loop variable as the pointer it is"),
